@@ -47,6 +47,9 @@ Proof. destruct k as [y|]; cbn; [intros H x [E|[]]; subst; exact H|intros _ x []
 Lemma cond_edges o t f n : t < n -> f < n -> forall x, In x (outgoing (BCond o (Some t) (Some f))) -> x < n.
 Proof. cbn. intros H1 H2 x [E|[E|[]]]; subst; assumption. Qed.
 
+Lemma full_cond o t f : full_b (BCond o (Some t) (Some f)).
+Proof. split; discriminate. Qed.
+
 Lemma good_empty : good empty_graph.
 Proof. repeat split; intros; cbn in *; try discriminate. Qed.
 
@@ -200,7 +203,7 @@ Section Helpers.
     end.
 
   Lemma lower_cond_arms_ok l : Forall (fun a => lw_ok (fst a) /\ lw_ok (snd a)) l ->
-    forall en errb g r, good g -> pre g -> en < g_next g -> errb < g_next g ->
+    forall (en errb : id) g r, good g -> pre g -> en < g_next g -> errb < g_next g ->
       lower_cond_arms lw l en errb g = r -> arms_post g errb (fst r) (snd r) l.
   Proof.
     induction 1 as [|[cnd pred] t [Hc Hp] Ht IH]; intros en errb g r G P Ken Kerr E;
@@ -279,7 +282,7 @@ Lemma lower_stores_ok outs : forall kk first g r, good g -> opt_lt kk (g_next g)
 Proof.
   induction outs as [|s t IH]; intros kk first g r G K E; cbn [lower_stores] in E; revert E.
   - intros E; subst r; cbn [fst snd]. auto.
-  - destruct (add_block g (BSimple [I O_store [ASlot s]] kk)) as [b g1] eqn:E1.
+  - destruct (add_block g (BSimple [I O_store [ASlot s]] kk)) as [b g1] eqn:E1. intros E.
     destruct (add_simple _ _ _ _ _ G K E1) as (I1 & X1 & G1 & _).
     assert (K1 : opt_lt (Some b) (g_next g1)) by (cbn; lia).
     use (IH _ _ _ _ G1 K1 E) as (G2 & M2 & K2).
@@ -305,7 +308,7 @@ Section AssertHelpers.
       + destruct (lower_comment_lines lines (Some opb) g1) as [ks ga] eqn:E2.
         destruct (add_block ga (BSimple [] ks)) as [st gb] eqn:E3.
         destruct (lw cnd (Some st) gb) as [[cs ce] g3] eqn:E4. intros E; subst r; cbn [fst snd].
-        assert (K1 : opt_lt (Some (g_next g)) (g_next g1)) by (cbn; lia).
+        assert (K1 : opt_lt (Some opb) (g_next g1)) by (cbn; lia).
         use (lower_comment_lines_ok _ _ _ _ G1 K1 E2) as (Ga & Ma & Ka).
         destruct (add_simple _ _ _ _ _ Ga Ka E3) as (I3 & X3 & Gb & _).
         assert (Pb : pre gb) by (apply (pre_mono g); [exact P|lia]).
@@ -314,7 +317,7 @@ Section AssertHelpers.
         fin.
       + destruct (lw cnd (Some opb) g1) as [[cs ce] g3] eqn:E4. intros E; subst r; cbn [fst snd].
         assert (P1 : pre g1) by (apply (pre_mono g); [exact P|lia]).
-        assert (K1 : opt_lt (Some (g_next g)) (g_next g1)) by (cbn; lia).
+        assert (K1 : opt_lt (Some opb) (g_next g1)) by (cbn; lia).
         use (Hc _ _ _ G1 P1 K1 E4) as (G3 & L3 & U3 & N3).
         fin.
     - destruct (add_block g (BSimple [] k)) as [en0 g1] eqn:E1.
@@ -323,7 +326,7 @@ Section AssertHelpers.
       destruct (lw cnd (Some br) g3) as [[cs ce] g4] eqn:E4. intros E; subst r; cbn [fst snd].
       destruct (add_simple _ _ _ _ _ G K E1) as (I1 & X1 & G1 & _).
       destruct (add_simple _ _ _ _ _ G1 (Logic.I : opt_lt None _) E2) as (I2 & X2 & G2 & _).
-      assert (T3 : en < g_next g2) by lia. assert (F3 : errb < g_next g2) by lia.
+      assert (T3 : en0 < g_next g2) by lia. assert (F3 : errb < g_next g2) by lia.
       destruct (add_cond _ _ _ _ _ _ G2 T3 F3 E3) as (I3 & X3 & G3 & _).
       assert (P3 : pre g3) by (apply (pre_mono g); [exact P|lia]).
       assert (K3 : opt_lt (Some br) (g_next g3)) by (cbn; lia).
@@ -343,7 +346,7 @@ Section AssertHelpers.
       use (IH _ _ _ G P K E1) as (G1 & M1 & K1).
       assert (P1 : pre g1) by (apply (pre_mono g); [exact P|lia]).
       use (lower_assert1_ok _ He _ _ _ G1 P1 K1 E2) as (G2 & L2 & U2 & _).
-      fin. exact U2.
+      fin.
   Qed.
 End AssertHelpers.
 
@@ -353,6 +356,9 @@ Definition ctx_ok (c : lctx) (g : graph) : Prop :=
 
 Lemma ctx_ok_mono c g g' : ctx_ok c g -> g_next g <= g_next g' -> ctx_ok c g'.
 Proof. intros [A B] L. split; eapply opt_lt_mono; eauto. Qed.
+
+Lemma opt_all_some (P : expr -> Prop) x : opt_all P (Some x) -> P x.
+Proof. intros H. inversion H; subst. assumption. Qed.
 
 Lemma Forall_inst {A} (P : lctx -> A -> Prop) l c : Forall (fun a => forall c, P c a) l -> Forall (P c) l.
 Proof. intros H. eapply Forall_impl; [|exact H]. intros a Ha. apply Ha. Qed.
@@ -404,7 +410,7 @@ Proof.
                                 | None => (en0, g2)
                                 end) = (els, g3) /\ good g3 /\ g_next g2 <= g_next g3 /\ els < g_next g3).
     { destruct el as [x|].
-      - inversion H as [|? Hx]; subst.
+      - pose proof (opt_all_some _ _ H) as Hx.
         destruct (lower o c x (Some en0) g2) as [[s0 e0] g3] eqn:E3.
         assert (P2 : ctx_ok c g2) by (apply (ctx_ok_mono c g); [exact P|lia]).
         assert (K2 : opt_lt (Some en0) (g_next g2)) by (cbn; lia).
@@ -429,7 +435,7 @@ Proof.
     assert (P2 : ctx_ok c g2) by (apply (ctx_ok_mono c g); [exact P|lia]).
     assert (A : Forall (fun a => lw_ok (lower o c) (ctx_ok c) (fst a) /\ lw_ok (lower o c) (ctx_ok c) (snd a)) arms).
     { eapply Forall_impl; [|exact H]. intros a [Ha Hb]. split; [apply Ha|apply Hb]. }
-    assert (Ken : en < g_next g2) by lia. assert (Kerr : errb < g_next g2) by lia.
+    assert (Ken : en0 < g_next g2) by lia. assert (Kerr : errb < g_next g2) by lia.
     use (lower_cond_arms_ok _ _ (ctx_ok_mono c) arms A _ _ _ _ G2 P2 Ken Kerr E3) as (G3 & M3 & U3 & T3).
     destruct arms as [|[c0 p0] rest].
     + destruct T3 as [Q1 Q2]. subst. cbn [head_loop]. fin.
@@ -442,15 +448,15 @@ Proof.
     intros E; subst r; cbn [fst snd].
     destruct (add_simple _ _ _ _ _ G K E1) as (I1 & X1 & G1 & _).
     destruct (reserve_good _ _ _ G1 E2) as (I2 & X2 & G2).
-    assert (P2 : ctx_ok (mkL (l_sub_ret c) (Some en) None (l_param c)) g2) by (split; cbn; [lia|exact Logic.I]).
+    assert (P2 : ctx_ok (mkL (l_sub_ret c) (Some en0) None (l_param c)) g2) by (split; cbn; [lia|exact Logic.I]).
     assert (K2 : opt_lt (Some br) (g_next g2)) by (cbn; lia).
     use (IHe1 _ _ _ _ G2 P2 K2 E3) as (G3 & L3 & U3 & _).
-    assert (P3 : ctx_ok (mkL (l_sub_ret c) (Some en) (Some s) (l_param c)) g3) by (split; cbn; lia).
-    use (IHe2 _ _ _ _ G3 P3 (U3 : opt_lt (Some s) _) E4) as (G4 & L4 & U4 & _).
-    assert (T : ds < g_next g4) by lia. assert (F : en < g_next g4) by lia.
-    destruct (define_good g4 br (BCond [] (Some ds) (Some en)) G4 (conj (fun H => ltac:(discriminate H)) (fun H => ltac:(discriminate H)))
+    assert (P3 : ctx_ok (mkL (l_sub_ret c) (Some en0) (Some cs) (l_param c)) g3) by (split; cbn; lia).
+    use (IHe2 _ _ _ _ G3 P3 (U3 : opt_lt (Some cs) _) E4) as (G4 & L4 & U4 & _).
+    assert (T : ds < g_next g4) by lia. assert (F : en0 < g_next g4) by lia.
+    destruct (define_good g4 br (BCond [] (Some ds) (Some en0)) G4 (full_cond _ _ _)
                 (cond_edges _ _ _ _ T F)) as [Gd Nd].
-    cbn [head_loop]. fin. discriminate.
+    cbn [head_loop]. fin.
   - (* EFor *)
     destruct (add_block g (BSimple [] k)) as [en0 g1] eqn:E1.
     destruct (reserve g1) as [br g2] eqn:E2.
@@ -461,18 +467,18 @@ Proof.
     intros E; subst r; cbn [fst snd].
     destruct (add_simple _ _ _ _ _ G K E1) as (I1 & X1 & G1 & _).
     destruct (reserve_good _ _ _ G1 E2) as (I2 & X2 & G2).
-    assert (P2 : ctx_ok (mkL (l_sub_ret c) (Some en) None (l_param c)) g2) by (split; cbn; [lia|exact Logic.I]).
+    assert (P2 : ctx_ok (mkL (l_sub_ret c) (Some en0) None (l_param c)) g2) by (split; cbn; [lia|exact Logic.I]).
     assert (K2 : opt_lt (Some br) (g_next g2)) by (cbn; lia).
     use (IHe2 _ _ _ _ G2 P2 K2 E3) as (G3 & L3 & U3 & _).
-    assert (P3 : ctx_ok (mkL (l_sub_ret c) (Some en) None (l_param c)) g3) by (split; cbn; [lia|exact Logic.I]).
+    assert (P3 : ctx_ok (mkL (l_sub_ret c) (Some en0) None (l_param c)) g3) by (split; cbn; [lia|exact Logic.I]).
     use (IHe3 _ _ _ _ G3 P3 (U3 : opt_lt (Some cs) _) E4) as (G4 & L4 & U4 & _).
-    assert (P4 : ctx_ok (mkL (l_sub_ret c) (Some en) (Some ss) (l_param c)) g4) by (split; cbn; lia).
+    assert (P4 : ctx_ok (mkL (l_sub_ret c) (Some en0) (Some ss) (l_param c)) g4) by (split; cbn; lia).
     use (IHe4 _ _ _ _ G4 P4 (U4 : opt_lt (Some ss) _) E5) as (G5 & L5 & U5 & _).
-    assert (P5 : ctx_ok (mkL (l_sub_ret c) (Some en) None (l_param c)) g5) by (split; cbn; [lia|exact Logic.I]).
+    assert (P5 : ctx_ok (mkL (l_sub_ret c) (Some en0) None (l_param c)) g5) by (split; cbn; [lia|exact Logic.I]).
     assert (K5 : opt_lt (Some cs) (g_next g5)) by (cbn; lia).
     use (IHe1 _ _ _ _ G5 P5 K5 E6) as (G6 & L6 & U6 & N6).
-    assert (T : ds < g_next g6) by lia. assert (F : en < g_next g6) by lia.
-    destruct (define_good g6 br (BCond [] (Some ds) (Some en)) G6 (conj (fun H => ltac:(discriminate H)) (fun H => ltac:(discriminate H)))
+    assert (T : ds < g_next g6) by lia. assert (F : en0 < g_next g6) by lia.
+    destruct (define_good g6 br (BCond [] (Some ds) (Some en0)) G6 (full_cond _ _ _)
                 (cond_edges _ _ _ _ T F)) as [Gd Nd].
     cbn [head_loop]. fin.
     intros HL. apply define_no_edge; [apply N6; exact HL|].
@@ -504,10 +510,10 @@ Proof.
       as [opb g1] eqn:E1.
     destruct (add_simple _ _ _ _ _ G K E1) as (I1 & X1 & G1 & N1).
     destruct v as [x|].
-    + inversion H as [|? Hx]; subst.
+    + pose proof (opt_all_some _ _ H) as Hx.
       destruct (lower o c x (Some opb) g1) as [[s0 e0] g2] eqn:E2. intros E; subst r; cbn [fst snd].
       assert (P1 : ctx_ok c g1) by (apply (ctx_ok_mono c g); [exact P|lia]).
-      assert (K1 : opt_lt (Some (g_next g)) (g_next g1)) by (cbn; lia).
+      assert (K1 : opt_lt (Some opb) (g_next g1)) by (cbn; lia).
       use (Hx c _ _ _ G1 P1 K1 E2) as (G2 & L2 & U2 & N2).
       cbn [head_loop]. fin.
     + intros E; subst r; cbn [fst snd]. cbn [head_loop]. fin.
@@ -534,7 +540,7 @@ Proof.
     + destruct T3 as (s1 & Q & L & N). subst ks. cbn [or_else head_loop]. cbn in K3.
       fin.
   - (* ECall *)
-    destruct (add_block g (BSimple [I O_callsub [ASub s0]] k)) as [opb g1] eqn:E1.
+    destruct (add_block g (BSimple [I O_callsub [ASub s]] k)) as [opb g1] eqn:E1.
     destruct (lower_chain (lower o c) args (Some opb) g1) as [[ks x] g2] eqn:E2. intros E; subst r; cbn [fst snd].
     destruct (add_simple _ _ _ _ _ G K E1) as (I1 & X1 & G1 & N1).
     assert (P1 : ctx_ok c g1) by (apply (ctx_ok_mono c g); [exact P|lia]).
